@@ -10,3 +10,5 @@ pub(crate) mod common;
 pub(crate) mod ref_dis;
 pub(crate) mod ref_table;
 mod tail;
+pub(crate) mod ref_lex;
+mod head;
